@@ -98,4 +98,48 @@ theorem run_refines_of_steps
     have ih := run_refines_of_steps hstep rest _ _ h1.1 hwf.2.1 h1.2.1 hwf.2.2
     exact ⟨ih.1, ih.2.1, h1.2.2, ih.2.2⟩
 
+/-! ## the range side conditions, executably -/
+
+def boundsB (c : CW) : Bool :=
+  decide (c.w.slots.length < 2^30 - 1) && c.issued.all (fun h => decide (h.ver + 1 < 2^24))
+
+theorem boundsB_sound {c : CW} (h : boundsB c = true) : Bounds c := by
+  unfold boundsB at h
+  simp only [Bool.and_eq_true, decide_eq_true_eq, List.all_eq_true] at h
+  exact ⟨h.1, h.2⟩
+
+/-- contract and range conditions at every step of a history, executably -/
+def wfRunFullB (c : CW) : List (Op Handle) → Bool
+  | [] => true
+  | op :: rest => opWfB c op && boundsB (c.step info op).1 && wfRunFullB (c.step info op).1 rest
+
+theorem wfRun_of_check : ∀ (ops : List (Op Handle)) (c : CW), wfRunFullB info c ops = true → WfRun info c ops
+  | [], _, _ => trivial
+  | op :: rest, c, h => by
+    simp only [wfRunFullB, Bool.and_eq_true] at h
+    exact ⟨opWfB_sound h.1.1, boundsB_sound h.1.2, wfRun_of_check rest _ h.2⟩
+
+/-! ## a concrete history (non-vacuity of the hypotheses) -/
+
+/-- five-field component descriptions: constructible with default `c + 100`, callbacks on the even ids -/
+def exInfo : CompId → CompInfo := fun c => ⟨true, some (c + 100), none, c % 2 == 0, false⟩
+
+def exH (i v : Nat) : Handle := ⟨i, v, 0⟩
+
+/-- create, assign, lock, deferred create + assign from two threads, unlock (flush), destroyNow, a creation that
+recycles the freed id, remove, clone -/
+def exHistory : List (Op Handle) :=
+  [ .create 0 [0, 1] [],
+    .assign 0 (exH 0 0) 2 (some 5),
+    .lock,
+    .create 0 [0] [],
+    .assign 0 (exH 1 0) 4 (some 7),
+    .create 1 [2] [3],
+    .assign 1 (exH 2 0) 0 none,
+    .unlock,
+    .destroyNow 0 (exH 0 0),
+    .create 0 [2] [],
+    .remove 0 (exH 1 0) 4,
+    .clone (exH 2 0) ]
+
 end Mustache.Proofs.Refine
